@@ -276,4 +276,58 @@ class BackToBack(object):
             return 'diff', [('%s|tree-differs' % sig, 'after %r\ntext %r\nexpected %r\ngot      %r' % (text_a[-60:], text_b, want, got))], 2
         return 'ok', [], 2
 
-FAMILIES = [Canonical(), OneGap(), TwoGaps(), BackToBack()]
+class AfterACutText(object):
+    name = 'after-a-text-cut-anywhere'
+    describe = ('ONE parser object is given a catalogue text with an IMPORTS section cut after every one of its tokens (also with the '
+                'semicolon of the IMPORTS section left out) and then a well-formed text with IMPORTS of its own: the tree of the '
+                'second text is its reference tree wherever the first one broke off; every dialect')
+    B_IDS = ['imports-2', 'two-modules-0', 'ot-parts-1']
+
+    def a_ids(self):
+        byid = cat('quick')[1]
+        return sorted(k for k in byid if k.startswith('imports-'))[:6] + BackToBack().ids(['ot-parts-0', 'mi-0', 'two-modules-0'])
+
+    def blocks(self, tier):
+        return [{'a': a, 'd': d} for a in self.a_ids() for d in ('smiV2', 'smiV1', 'smiV1Relaxed')]
+
+    def cases(self, block, tier):
+        byid = cat('quick')[1]
+        toks = mibspec.file_tokens(byid[block['a']]['mods'])
+        for b in BackToBack().ids(self.B_IDS):
+            for k in range(1, len(toks)):
+                yield {'a': block['a'], 'd': block['d'], 'b': b, 'k': k}
+            for i, t in enumerate(toks):
+                if t == ';':
+                    yield {'a': block['a'], 'd': block['d'], 'b': b, 'drop': i}
+
+    def run_case(self, case):
+        byid = cat('quick')[1]
+        ea, eb = byid[case['a']], byid[case['b']]
+        if case['d'] not in dialects(eb):
+            return 'skip', [], 0
+        toks = mibspec.file_tokens(ea['mods'])
+        if 'drop' in case:
+            text_a = mibspec.join(toks[:case['drop']] + toks[case['drop'] + 1:])
+            label = 'semicolon-left-out'
+        else:
+            text_a = mibspec.join(toks[:case['k']])
+            label = 'cut-inside-IMPORTS' if 'IMPORTS' in toks[:case['k']] and ';' not in toks[:case['k']] else 'cut-elsewhere'
+        parser = env.shared_parser(case['d'])
+        parser.reset()
+        try:
+            parser.parse(text_a)
+        except Exception:
+            pass
+        text_b = mibspec.join(mibspec.file_tokens(eb['mods']))
+        sig = 'C02|after-a-cut-text|%s' % label
+        try:
+            got = parser.parse(text_b)
+        except Exception as exc:
+            return 'exc', [('%s|exception|%s' % (sig, type(exc).__name__), 'after %r\ntext %r raised %r' % (text_a[-80:], text_b, exc))], 2
+        want = mibspec.file_tree(eb['mods'])
+        if got != want:
+            return 'diff', [('%s|tree-differs' % sig, 'after %r\ntext %r\nexpected %r\ngot      %r' % (text_a[-80:], text_b, want, got))], 2
+        return 'ok', [], 2
+
+
+FAMILIES = [Canonical(), OneGap(), TwoGaps(), BackToBack(), AfterACutText()]
